@@ -268,16 +268,31 @@ pub fn exec_plain(req: &Req, api: &Arc<InternalAPI>, node: &SimNode, op: &Op) ->
             node.lock().faults.down = false;
             "up".into()
         }
+        Op::Precious { txs } => {
+            let resolved: Vec<Transaction> = txs.iter().map(|t| req.tx_of(t)).collect();
+            node.lock().precious_sibling(resolved);
+            "precious".into()
+        }
         Op::WorseTip => {
             // the next poll of THIS thread (the chain thread) is answered with an equal-work sibling of the tip
             let bh = node.lock().side_block_hash();
             crate::node::BEST_OVERRIDE.with(|c| c.set(Some(bh)));
             "worse-tip".into()
         }
+        Op::NodeUpThenDownAtBs { calls } => {
+            let mut st = node.lock();
+            st.faults.down = false;
+            if !st.faults.no_more_outages {
+                st.faults.down_at_bs = Some(st.bs_count + *calls as u64);
+            }
+            "up-for-a-moment".into()
+        }
         Op::NodeUpThenDownAfter { rpcs } => {
             let mut st = node.lock();
             st.faults.down = false;
-            st.faults.down_at_rpc = Some(st.rpc_count + *rpcs as u64);
+            if !st.faults.no_more_outages {
+                st.faults.down_at_rpc = Some(st.rpc_count + *rpcs as u64);
+            }
             "up-for-a-moment".into()
         }
         Op::NodeUpBehind { k } => {
@@ -604,6 +619,13 @@ fn run_scenario_here(sc: &Scenario, strategy: Option<Strategy>, order: Option<&[
                     }
                     let shared_replies: Arc<Mutex<Vec<Vec<String>>>> = Arc::new(Mutex::new(replies.clone()));
                     let served_unreachable: Arc<Mutex<Vec<String>>> = Arc::new(Mutex::new(vec![]));
+                    // number of calls the node had served when a poll failed against a node that was down throughout
+                    let noticed_at: Arc<Mutex<Option<u64>>> = Arc::new(Mutex::new(None));
+                    // The chain thread is inside a poll. A poll whose LAST call failed can still end as a success (the block
+                    // sync library swallows a failed block download: root of the open C03 finding) and flag the node
+                    // reachable while it is down -- the tower has then not noticed that outage, so a request overlapping such
+                    // a poll is not judged by the flag-based clause.
+                    let poll_in_progress = Arc::new(std::sync::atomic::AtomicBool::new(false));
                     let mut handles = vec![];
                     for (ti, ops) in sc.threads.iter().enumerate().skip(1) {
                         let api = ctx.api.clone();
@@ -614,6 +636,8 @@ fn run_scenario_here(sc: &Scenario, strategy: Option<Strategy>, order: Option<&[
                         let out = shared_replies.clone();
                         let reachable2 = ctx.reachable.clone();
                         let served2 = served_unreachable.clone();
+                        let noticed2 = noticed_at.clone();
+                        let polling2 = poll_in_progress.clone();
                         let judge_unavailable = sc.property == "C12";
                         let aborts2 = aborts.clone();
                         handles.push(
@@ -632,19 +656,51 @@ fn run_scenario_here(sc: &Scenario, strategy: Option<Strategy>, order: Option<&[
                                                     n += 1;
                                                 }
                                             }
+                                            if let Op::Yield { n } = op {
+                                                for _ in 0..*n {
+                                                    sched2.yield_now();
+                                                }
+                                            }
                                             // C12: a public request that finds the node flagged unreachable is answered
                                             // 'unavailable'. The flag can only come back after the node has answered a call,
                                             // so a request made while it is down, during which the node stays down and serves
                                             // nothing, cannot have found it up at any instant.
                                             let is_request = matches!(op, Op::Register { .. } | Op::Add { .. } | Op::Get { .. } | Op::SubInfo { .. });
+                                            // One atomic snapshot: the scheduling point of the flag's lock lies BEFORE the
+                                            // guard is obtained; flag, node state and the "a poll has failed" mark are then
+                                            // read with no scheduling point in between (the node and the mark are plain std
+                                            // mutexes).
+                                            let mut noticed_now = false;
                                             let before = if judge_unavailable && is_request {
-                                                let flag = *reachable2.0.lock().unwrap_or_else(|e| e.into_inner());
-                                                let st = node2.lock();
-                                                Some((flag, st.faults.down, st.served_calls))
+                                                let g = reachable2.0.lock().unwrap_or_else(|e| e.into_inner());
+                                                let flag = *g;
+                                                let snap = {
+                                                    let st = node2.lock();
+                                                    // Independent of the tower's own flag: a poll that began and ended with the
+                                                    // node down and unanswered has failed, so the tower HAS noticed this outage;
+                                                    // until the node answers a call again nothing can tell the tower otherwise.
+                                                    noticed_now = st.faults.down
+                                                        && *noticed2.lock().unwrap_or_else(|e| e.into_inner()) == Some(st.served_calls);
+                                                    let flag = flag || polling2.load(std::sync::atomic::Ordering::SeqCst);
+                                                    (flag, st.faults.down, st.served_calls)
+                                                };
+                                                drop(g);
+                                                Some(snap)
                                             } else {
                                                 None
                                             };
                                             let r = exec_plain(&req2, &api, &node2, op);
+                                            if noticed_now {
+                                                let st = node2.lock();
+                                                let (_, _, served) = before.unwrap();
+                                                if st.faults.down && st.served_calls == served && r != "err Unavailable" {
+                                                    served2.lock().unwrap_or_else(|e| e.into_inner()).push(format!(
+                                                        "{} was answered '{}' although a poll had failed in this outage (the tower had noticed it) and the node answered no call between that poll and the end of the request",
+                                                        op.kind(),
+                                                        r.chars().take(60).collect::<String>()
+                                                    ));
+                                                }
+                                            }
                                             if let Some((flag, down, served)) = before {
                                                 let st = node2.lock();
                                                 if !flag && down && st.faults.down && st.served_calls == served && r != "err Unavailable" {
@@ -691,10 +747,28 @@ fn run_scenario_here(sc: &Scenario, strategy: Option<Strategy>, order: Option<&[
                                 st.faults.down_at_rpc = None;
                                 st.faults.down_at_bs = None;
                                 st.faults.down = false;
+                                st.faults.no_more_outages = true;
+                            }
+                            if let Op::Yield { n } = op {
+                                for _ in 0..*n {
+                                    sched.yield_now();
+                                }
                             }
                             let r = match op {
                                 Op::Poll => {
+                                    let (down0, served0) = {
+                                        let st = node.lock();
+                                        (st.faults.down, st.served_calls)
+                                    };
+                                    poll_in_progress.store(true, std::sync::atomic::Ordering::SeqCst);
                                     (ctx.poll)();
+                                    poll_in_progress.store(false, std::sync::atomic::Ordering::SeqCst);
+                                    let st = node.lock();
+                                    if down0 && st.faults.down && st.served_calls == served0 {
+                                        *noticed_at.lock().unwrap_or_else(|e| e.into_inner()) = Some(served0);
+                                        drop(st);
+                                        *node.lock().fired.entry("F1_poll_failed_node_down_throughout").or_insert(0) += 1;
+                                    }
                                     "polled".to_string()
                                 }
                                 other => exec_plain(&req, &ctx.api, &node, other),
@@ -718,6 +792,9 @@ fn run_scenario_here(sc: &Scenario, strategy: Option<Strategy>, order: Option<&[
                     crate::hooks::set_rpc_yield(None);
                     replies = shared_replies.lock().unwrap_or_else(|e| e.into_inner()).clone();
                     if !served_unreachable.lock().unwrap_or_else(|e| e.into_inner()).is_empty() {
+                        if std::env::var("SIM_DEBUG").is_ok() {
+                            eprintln!("[conc] served while unreachable: {:?}", served_unreachable.lock().unwrap_or_else(|e| e.into_inner()));
+                        }
                         unavailable_ok = false;
                     }
                     let early = sched.early_wakeups_fired();
